@@ -32,6 +32,24 @@ claim('C01', 'other',
       'Unbounded in the values; loop-free code so no unwinding bound.',
       FORMULA_NOTE, 'symbolic execution of LLVM IR + SMT (z3 qfnra-nlsat) identity checking against a differentiated reference', 'DESIGN.md §4 C01')
 
+claim('C02', 'other',
+      'Solver-based symbolic checking: every eval_q_* and eval_exact_* of the 8 Euler-family solutions (both scalar types) executed symbolically from the clang IR; '
+      'z3 (nlsat) decides (i) exact fields == documented sine/cosine forms and (ii) each source == conservative Euler residual (Cartesian / cylindrical with 1/r terms) '
+      'obtained by symbolic differentiation of the library\'s own exact-field terms. Unbounded in values; loop-free.',
+      FORMULA_NOTE + ' Admissibility assumed: L != 0, Gamma != 1, rho > 0, r > 0.', 'symbolic execution of LLVM IR + SMT (z3 qfnra-nlsat) identity checking', 'DESIGN.md §4 C02')
+claim('C03', 'other',
+      'As C02 with the Newtonian stress (Stokes hypothesis) and Fourier flux for navierstokes_2d/3d_compressible, axisymmetric_navierstokes_compressible and axi_cns_transient. '
+      'The six momentum/energy sources of the two axisymmetric solutions are genuine known findings (deficient stress tensor); they are additionally checked against the as-built operator so any further change is still detected. '
+      'The power-law solution is covered by c03_powerlaw (see level_note).',
+      FORMULA_NOTE + ' Admissibility: L != 0, Gamma != 1, R != 0, rho > 0, r > 0. navierstokes_4d_compressible_powerlaw: see evidence family powerlaw.', 'symbolic execution of LLVM IR + SMT (z3 qfnra-nlsat) identity checking', 'DESIGN.md §4 C03')
+claim('C04', 'other',
+      'laplace_2d: eval_q_f == Laplacian(eval_exact_phi); burgers_equation: eval_q_u/v(x,y,t) == u_t+(uu)_x+(uv)_y, v_t+(uv)_x+(vv)_y of eval_exact_u/v(x,y,t); 2-argument exact fields == 3-argument ones with the temporal amplitude 0; all decided by z3 over symbolic parameters and points, both scalar types.',
+      FORMULA_NOTE, 'symbolic execution of LLVM IR + SMT identity checking', 'DESIGN.md §4 C04')
+claim('C20', 'other',
+      'Both sides are library terms extracted from the IR; parameters of the larger model are substituted by 0 and z3 decides equality with the smaller model\'s term over the shared parameter symbols '
+      '(3D->2D Euler/NS at arbitrary z, mu=k=0 NS->Euler, temporal amplitudes 0 transient->steady Euler, heat unsteady->steady and variable->constant).',
+      FORMULA_NOTE, 'symbolic execution of LLVM IR + parameter substitution + SMT equality', 'DESIGN.md §4 C20')
+
 ALL = ['C%02d' % i for i in range(1, 21)]
 
 
